@@ -122,7 +122,9 @@ Definition in_int64 (z : Z) : bool := (Z.leb min_int64 z) && (Z.leb z max_int64)
 (* what a registered handler does with its (copied) argument *)
 Inductive hres := HOk (r : msg) | HErr (tok : string) | HPanic (tok : string).
 
-Inductive hkind := HStrict | HLenient | HConst | HInt | HBytes.
+Inductive hkind := HStrict | HLenient | HConst | HInt | HBytes
+  | HAck.   (* acknowledge only: the handler returns (nil, nil); the reply is encoded to zero bytes,
+               which a client decodes to the zero reply (tag 0, zero message) *)
 
 Definition by_S (m : msg) (k : hres) : hres :=
   if String.prefix "fail" (mS m) then HErr (mS m)
@@ -134,6 +136,7 @@ Definition handler (h : hkind) (m : msg) : hres :=
   | HStrict  => by_S m (if String.eqb (mS m) "" then HErr "empty" else HOk m)
   | HLenient => by_S m (HOk (Msg (mS m) (mI m) (negb (mB m)) (mD m)))
   | HConst   => HOk (Msg "const" 42%Z true "")
+  | HAck     => HOk zero_msg
   | HInt     => if Z.eqb (mI m) 13 then HErr "n13"
                 else if Z.eqb (mI m) 666 then HPanic "n666"
                 else HOk (Msg "" (mI m) false "")
